@@ -272,6 +272,10 @@ def run(ctx):
                         res.violation(f"reply-altered:{'raw' if desc is None else desc[0]}",
                                       f"{desc_txt}: target replied status 0 data {rdata.hex()[:80]}; Tag = {tag!r:.200}, expected value {want_val!r:.120}",
                                       {"reply": rdata})
+                elif status == 6 and service in (0x03, 0x0A, 0x52, 0x53, 0x55):
+                    # general status 6 (partial transfer) on a service that legitimately continues counts as success (C13's rule);
+                    # a random service code from that set with a random status 6 is therefore not a refusal
+                    res.dont_care("status-6-on-a-continuing-service")
                 else:
                     if tag or not tag.error:
                         res.violation("refusal-not-falsy", f"{desc_txt}: target refused with status {status:#x} ext {ext!r}; Tag = {tag!r:.200}", None)
